@@ -38,6 +38,10 @@ def run(rep, fb, tier):
     rC.done()
     from ..rules.callsites import rule_dispatch
     rule_dispatch(rep, fb)
+    from ..rules import kbound, guards
+    kbound.rule_kbound(rep, fb)
+    guards.rule_const_subscript(rep, fb)
+    guards.rule_division(rep, fb)
 
     # ---- exhaustiveness: every extern kernel symbol defined in src/cpu-kernels/awkward_*.cpp is specified
     rE = rep.rule("KSIG.exhaustive", "every non-template awkward_* function defined under src/cpu-kernels is a specialisation listed in the specification", floor=600)
